@@ -136,11 +136,45 @@ func ruleOkBeforeCompare(c *Ctx) {
 			okOf[c.objOf(v)] = c.objOf(o)
 			return true
 		})
+		// a producer's ok that is thrown away: the placeholder cannot be told from a real rank any more
+		discarded := ""
+		ast.Inspect(fd.Body, func(n ast.Node) bool {
+			as, isA := n.(*ast.AssignStmt)
+			if !isA || len(as.Lhs) != 2 || len(as.Rhs) != 1 {
+				return true
+			}
+			call, isCall := unparen(as.Rhs[0]).(*ast.CallExpr)
+			if !isCall {
+				return true
+			}
+			tup, isTup := c.typeOf(call).(*types.Tuple)
+			if !isTup || tup.Len() != 2 {
+				return true
+			}
+			if b, isB := tup.At(1).Type().Underlying().(*types.Basic); !isB || b.Kind() != types.Bool {
+				return true
+			}
+			if o, isId := as.Lhs[1].(*ast.Ident); isId && o.Name == "_" {
+				if v, isV := as.Lhs[0].(*ast.Ident); isV && v.Name != "_" {
+					discarded = c.pos(as.Pos()) + ": the ok result of " + exprString(call.Fun) + " is discarded and its value kept: the placeholder returned for an absent key is then ordered like a real rank (a legitimate rank equal to the placeholder sorts as if it were absent)"
+				}
+			}
+			return true
+		})
+		if discarded != "" {
+			c.saw(fn)
+			c.ob(rule, fn+":ok-kept", fd.Pos(), false, discarded)
+		}
 		if len(okOf) == 0 {
 			continue
 		}
 		c.saw(fn)
 		good, why := true, ""
+		if fd.Name.Name == "Less" {
+			if w := c.lessMirror(fd); w != "" {
+				good, why = false, w
+			}
+		}
 		// ranks are compared, never subtracted: a difference of two int ranks overflows for ranks far apart and
 		// the sign of the wrapped difference orders them the wrong way round (no strict weak order any more)
 		ast.Inspect(fd.Body, func(n ast.Node) bool {
@@ -178,6 +212,23 @@ func ruleOkBeforeCompare(c *Ctx) {
 					continue
 				}
 				known := c.entailsFlag(c.condsAt(fd, be), flag)
+				if !known && (be.Op == token.EQL || be.Op == token.NEQ) {
+					// v1 == v2 where both flags are known to be equal: when neither is set, both values are the
+					// placeholder, which is one constant if every not-ok return of the producers says so
+					ox, okx := unparen(be.X).(*ast.Ident)
+					oy, oky := unparen(be.Y).(*ast.Ident)
+					if okx && oky {
+						fx, hx := okOf[c.objOf(ox)]
+						fy, hy := okOf[c.objOf(oy)]
+						if hx && hy {
+							eq := &ast.BinaryExpr{X: &ast.Ident{Name: fx.Name(), NamePos: fx.Pos()}, Op: token.EQL, Y: &ast.Ident{Name: fy.Name(), NamePos: fy.Pos()}}
+							if c.flagsKnownEqual(c.condsAt(fd, be), fx, fy) && c.constantPlaceholder(fd, c.objOf(ox)) && c.constantPlaceholder(fd, c.objOf(oy)) {
+								known = true
+							}
+							_ = eq
+						}
+					}
+				}
 				if !known {
 					good = false
 					why = c.pos(be.Pos()) + ": " + id.Name + " is compared where " + flag.Name() + " is not known to be true: the placeholder returned for an absent key takes part in the order, which is then no strict weak order (the result of sorting depends on the initial, random, order)"
@@ -190,15 +241,34 @@ func ruleOkBeforeCompare(c *Ctx) {
 }
 
 // entailsFlag decides by truth table whether the conditions in force imply that the boolean variable flag is
-// true. Boolean identifiers are the atoms; any other sub-expression is an opaque atom of its own.
+// true.
 func (c *Ctx) entailsFlag(conds []condLit, flag types.Object) bool {
+	return c.propEntails(conds, &ast.Ident{Name: flag.Name(), NamePos: flag.Pos()}, false, flag)
+}
+
+// propEntails decides by truth table whether the conditions imply goal (negated when goalNeg). Atoms are the
+// sub-expressions that are not built from !, &&, ||, or ==/!= between booleans; x != y shares its atom with
+// x == y (operands in either order). goalObj, when set, makes an identifier goal denote that object.
+func (c *Ctx) propEntails(conds []condLit, goal ast.Expr, goalNeg bool, goalObj types.Object) bool {
 	atomIdx := map[string]int{}
-	var atomOf func(e ast.Expr) int
-	atomOf = func(e ast.Expr) int {
-		k := exprString(e)
-		if id, ok := unparen(e).(*ast.Ident); ok && c.objOf(id) != nil {
-			k = "obj:" + id.Name + "@" + c.pos(c.objOf(id).Pos())
+	keyOf := func(e ast.Expr) string {
+		e = unparen(e)
+		if id, ok := e.(*ast.Ident); ok {
+			if o := c.objOf(id); o != nil {
+				return "obj:" + id.Name + "@" + c.pos(o.Pos())
+			}
+			if goalObj != nil && id.Name == goalObj.Name() && id.NamePos == goalObj.Pos() {
+				return "obj:" + id.Name + "@" + c.pos(goalObj.Pos())
+			}
+			for _, so := range c.synthObjs {
+				if id.Name == so.Name() && id.NamePos == so.Pos() {
+					return "obj:" + id.Name + "@" + c.pos(so.Pos())
+				}
+			}
 		}
+		return exprString(e)
+	}
+	atomOf := func(k string) int {
 		if i, ok := atomIdx[k]; ok {
 			return i
 		}
@@ -206,9 +276,26 @@ func (c *Ctx) entailsFlag(conds []condLit, flag types.Object) bool {
 		return atomIdx[k]
 	}
 	type node struct {
-		op   token.Token // LAND, LOR, NOT, or ILLEGAL for an atom
+		op   token.Token // LAND, LOR, NOT, EQL (iff), or ILLEGAL for an atom
 		a, b *node
 		atom int
+	}
+	isBool := func(e ast.Expr) bool {
+		t := c.typeOf(e)
+		if t == nil {
+			if id, ok := unparen(e).(*ast.Ident); ok {
+				for _, so := range c.synthObjs {
+					if id.Name == so.Name() && id.NamePos == so.Pos() {
+						t = so.Type()
+					}
+				}
+			}
+		}
+		if t == nil {
+			return false
+		}
+		b, ok := t.Underlying().(*types.Basic)
+		return ok && b.Info()&types.IsBoolean != 0
 	}
 	var build func(e ast.Expr) *node
 	build = func(e ast.Expr) *node {
@@ -219,11 +306,27 @@ func (c *Ctx) entailsFlag(conds []condLit, flag types.Object) bool {
 				return &node{op: token.NOT, a: build(x.X)}
 			}
 		case *ast.BinaryExpr:
-			if x.Op == token.LAND || x.Op == token.LOR {
+			switch x.Op {
+			case token.LAND, token.LOR:
 				return &node{op: x.Op, a: build(x.X), b: build(x.Y)}
+			case token.EQL, token.NEQ:
+				var n *node
+				if isBool(x.X) && isBool(x.Y) {
+					n = &node{op: token.EQL, a: build(x.X), b: build(x.Y)}
+				} else {
+					l, r := keyOf(x.X), keyOf(x.Y)
+					if r < l {
+						l, r = r, l
+					}
+					n = &node{atom: atomOf(l + " == " + r)}
+				}
+				if x.Op == token.NEQ {
+					return &node{op: token.NOT, a: n}
+				}
+				return n
 			}
 		}
-		return &node{atom: atomOf(e)}
+		return &node{atom: atomOf(keyOf(e))}
 	}
 	var forms []*node
 	for _, cl := range conds {
@@ -233,14 +336,11 @@ func (c *Ctx) entailsFlag(conds []condLit, flag types.Object) bool {
 		}
 		forms = append(forms, n)
 	}
-	// the flag's atom
-	want := -1
-	for k, i := range atomIdx {
-		if strings.HasPrefix(k, "obj:"+flag.Name()+"@"+c.pos(flag.Pos())) {
-			want = i
-		}
+	g := build(goal)
+	if goalNeg {
+		g = &node{op: token.NOT, a: g}
 	}
-	if want < 0 || len(atomIdx) > 10 {
+	if len(atomIdx) > 12 {
 		return false
 	}
 	var eval func(n *node, v uint) bool
@@ -252,6 +352,8 @@ func (c *Ctx) entailsFlag(conds []condLit, flag types.Object) bool {
 			return eval(n.a, v) && eval(n.b, v)
 		case token.LOR:
 			return eval(n.a, v) || eval(n.b, v)
+		case token.EQL:
+			return eval(n.a, v) == eval(n.b, v)
 		}
 		return v&(1<<uint(n.atom)) != 0
 	}
@@ -263,7 +365,7 @@ func (c *Ctx) entailsFlag(conds []condLit, flag types.Object) bool {
 				break
 			}
 		}
-		if all && v&(1<<uint(want)) == 0 {
+		if all && !eval(g, v) {
 			return false
 		}
 	}
@@ -540,4 +642,226 @@ func ruleEncodeNilEmptyAlike(c *Ctx) {
 		})
 		c.ob(rule, fn, fd.Pos(), good, why)
 	}
+}
+
+// flagsKnownEqual: the conditions in force imply f1 == f2 (both flags set, or neither).
+func (c *Ctx) flagsKnownEqual(conds []condLit, f1, f2 types.Object) bool {
+	// (f1 && f2) || (!f1 && !f2), as a truth-table goal over the two flag atoms
+	id := func(o types.Object) ast.Expr { return &ast.Ident{Name: o.Name(), NamePos: o.Pos()} }
+	not := func(e ast.Expr) ast.Expr { return &ast.UnaryExpr{Op: token.NOT, X: e} }
+	goal := &ast.BinaryExpr{
+		X:  &ast.BinaryExpr{X: id(f1), Op: token.LAND, Y: id(f2)},
+		Op: token.LOR,
+		Y:  &ast.BinaryExpr{X: not(id(f1)), Op: token.LAND, Y: not(id(f2))},
+	}
+	return c.propEntailsObjs(conds, goal, []types.Object{f1, f2})
+}
+
+// propEntailsObjs is propEntails for a synthetic goal whose identifiers denote the given objects.
+func (c *Ctx) propEntailsObjs(conds []condLit, goal ast.Expr, objs []types.Object) bool {
+	// identifiers of the synthetic goal are resolved by (name, position) against objs
+	saved := c.synthObjs
+	c.synthObjs = objs
+	defer func() { c.synthObjs = saved }()
+	return c.propEntails(conds, goal, false, nil)
+}
+
+// constantPlaceholder: v is the first result of `v, ok := f(...)` where every return of f (a package function
+// with a body) whose ok result is the constant false yields one and the same constant as its value.
+func (c *Ctx) constantPlaceholder(fd *ast.FuncDecl, v types.Object) bool {
+	var call *ast.CallExpr
+	ast.Inspect(fd.Body, func(n ast.Node) bool {
+		as, ok := n.(*ast.AssignStmt)
+		if !ok || len(as.Lhs) != 2 || len(as.Rhs) != 1 {
+			return true
+		}
+		if id, ok := as.Lhs[0].(*ast.Ident); ok && c.objOf(id) == v {
+			call, _ = unparen(as.Rhs[0]).(*ast.CallExpr)
+		}
+		return true
+	})
+	for depth := 0; call != nil && depth < 3; depth++ {
+		g, _ := c.callee(call).(*types.Func)
+		gfd := c.decl(g)
+		if gfd == nil || gfd.Body == nil {
+			return false
+		}
+		var consts []string
+		var forward *ast.CallExpr
+		okAll := true
+		n := 0
+		ast.Inspect(gfd.Body, func(m ast.Node) bool {
+			if _, isLit := m.(*ast.FuncLit); isLit {
+				return false
+			}
+			rs, ok := m.(*ast.ReturnStmt)
+			if !ok {
+				return true
+			}
+			n++
+			if len(rs.Results) == 1 {
+				// return f(...): the producer forwards another producer
+				if fc, isCall := unparen(rs.Results[0]).(*ast.CallExpr); isCall {
+					forward = fc
+					return true
+				}
+				okAll = false
+				return true
+			}
+			if len(rs.Results) != 2 {
+				okAll = false
+				return true
+			}
+			tv, isConst := c.Info.Types[rs.Results[1]]
+			if !isConst || tv.Value == nil {
+				okAll = false
+				return true
+			}
+			if tv.Value.String() == "false" {
+				vv, isC := c.Info.Types[rs.Results[0]]
+				if !isC || vv.Value == nil {
+					okAll = false
+					return true
+				}
+				consts = append(consts, vv.Value.ExactString())
+			}
+			return true
+		})
+		if !okAll || n == 0 {
+			return false
+		}
+		if forward != nil && n == 1 {
+			call = forward
+			continue
+		}
+		if forward != nil {
+			return false
+		}
+		for _, k := range consts {
+			if k != consts[0] {
+				return false
+			}
+		}
+		return len(consts) > 0
+	}
+	return false
+}
+
+// lessMirror: on the effect normal form of a Less method that orders by (rank, has-rank) pairs, a constant answer
+// for "left has a rank, right has none" must be mirrored by the opposite constant for "left has none, right has
+// one": otherwise Less(a, b) and Less(b, a) can both hold (or the order depends on where sorting started).
+func (c *Ctx) lessMirror(fd *ast.FuncDecl) string {
+	// (value, ok) producers are kept as opaque calls: their ok results are the flags
+	paths, unsup := c.simulate(fd, func(f *types.Func) bool {
+		res := f.Type().(*types.Signature).Results()
+		if res.Len() == 2 {
+			if b, isB := res.At(1).Type().Underlying().(*types.Basic); isB && b.Kind() == types.Bool {
+				return false
+			}
+		}
+		return true
+	})
+	if unsup != "" || len(paths) == 0 {
+		return ""
+	}
+	// the two producers: the first two distinct calls whose second result is used as a flag in conditions
+	flagOf := func(v sval) (int, bool) {
+		sc, ok := v.(svCall)
+		if !ok || sc.idx != 1 || sc.id == 0 {
+			return 0, false
+		}
+		if tup, ok := c.typeOf(sc.call).(*types.Tuple); ok && tup.Len() == 2 {
+			if b, isB := tup.At(1).Type().Underlying().(*types.Basic); isB && b.Kind() == types.Bool {
+				return sc.id, true
+			}
+		}
+		return 0, false
+	}
+	type row struct {
+		f    map[int]int // call id -> 1 / -1
+		ret  int         // 1 true, -1 false, 0 not constant
+		rel  int         // the two flags are known equal (1) / different (-1)
+		npos int
+	}
+	var rows []row
+	ids := map[int]bool{}
+	for _, p := range paths {
+		r := row{f: map[int]int{}}
+		for _, cd := range p.conds {
+			if id, ok := flagOf(cd.v); ok && !cd.loop {
+				ids[id] = true
+				if cd.neg {
+					r.f[id] = -1
+				} else {
+					r.f[id] = 1
+				}
+			}
+			// flagA != flagB (equality is written as its negation in the normal form)
+			if bn, isBin := cd.v.(svBin); isBin && bn.op == token.NEQ && !cd.loop {
+				ia, oka := flagOf(bn.x)
+				ib, okb := flagOf(bn.y)
+				if oka && okb {
+					ids[ia], ids[ib] = true, true
+					if cd.neg {
+						r.rel = 1
+					} else {
+						r.rel = -1
+					}
+				}
+			}
+		}
+		if len(p.rets) == 1 {
+			if b, ok := constBool(p.rets[0]); ok {
+				if b {
+					r.ret = 1
+				} else {
+					r.ret = -1
+				}
+			}
+		}
+		rows = append(rows, r)
+	}
+	if len(ids) != 2 {
+		return ""
+	}
+	var a, b int
+	for id := range ids {
+		if a == 0 || id < a {
+			a, b = id, a
+		} else {
+			b = id
+		}
+	}
+	if b == 0 {
+		return ""
+	}
+	answer := func(fa, fb int) (int, bool) {
+		// the answers of every path on which the flags are (fa, fb); ok when they are all one constant
+		ans, n := 0, 0
+		for _, r := range rows {
+			if r.f[a] != 0 && r.f[a] != fa || r.f[b] != 0 && r.f[b] != fb {
+				continue
+			}
+			if r.rel == 1 && fa != fb || r.rel == -1 && fa == fb {
+				continue
+			}
+			n++
+			if r.ret == 0 || (ans != 0 && ans != r.ret) {
+				return 0, false
+			}
+			ans = r.ret
+		}
+		return ans, n > 0
+	}
+	lr, okLR := answer(1, -1)
+	rl, okRL := answer(-1, 1)
+	switch {
+	case okLR && !okRL:
+		return "the comparator gives a constant answer when only the left item has a rank, but not when only the right one has: Less(a, b) and Less(b, a) are no longer opposite, so there is no strict weak order and the output depends on the initial (random) order"
+	case !okLR && okRL:
+		return "the comparator gives a constant answer when only the right item has a rank, but not when only the left one has: Less(a, b) and Less(b, a) are no longer opposite, so there is no strict weak order and the output depends on the initial (random) order"
+	case okLR && okRL && lr == rl:
+		return "the comparator answers the same constant whichever of the two items has a rank: Less(a, b) and Less(b, a) both hold"
+	}
+	return ""
 }
